@@ -66,8 +66,9 @@ def code_dependencies_outputs(code: Sequence[ast.AST]) -> Tuple[Set[str], Set[st
         temp_children = []
         children = []
         if isinstance(node, (ast.While, ast.For, ast.If)):
+            # The iterable is evaluated before the target is bound: for x in f(x)
             temp_children = (
-                [node.test] if isinstance(node, (ast.If, ast.While)) else [node.target, node.iter]
+                [node.test] if isinstance(node, (ast.If, ast.While)) else [node.iter, node.target]
             )
             children = [node.body, node.orelse]
             if any(core.is_blocking(child) for child in ast.walk(node)):
@@ -150,12 +151,16 @@ def code_dependencies_outputs(code: Sequence[ast.AST]) -> Tuple[Set[str], Set[st
             c_created, c_maybe_created, c_needed = code_dependencies_outputs(nodes)
             created.append(c_created)
             maybe_created_names.update(c_maybe_created)
-            needed.append(c_needed - temp_created)
+            if isinstance(node, ast.For) and nodes is node.orelse:
+                # The else clause also runs when there was nothing to iterate over,
+                # and then the target is not bound
+                needed.append(c_needed)
+            else:
+                needed.append(c_needed - temp_created)
 
         node_created = set.intersection(*created) if created else set()
         node_needed = set.union(*needed) if needed else set()
         node_needed -= created_names_original
-        node_needed -= temp_created
         node_needed |= temp_needed
         created_names.update(node_created)
         required_names.update(node_needed)
